@@ -67,6 +67,7 @@ rm -rf "$SUT"; mkdir -p "$SUT"
   DDPPATH="$SUT" "$SUT/bin/kddp" dump-list-defs -o "$SUT/lib/ddp_list_types_defs" --llvm-ir --object
   # link-time shims (no change to repo sources)
   for s in "$HERE"/shim/*.c; do gcc -c -O1 -Ilib/runtime/include -o "$SUT/shim/$(basename "$s" .c).o" "$s"; done
+  clang-14 -c -O1 -fsanitize=address -Ilib/runtime/include -o "$SUT/shim/forkmain_asan.o" "$HERE/shim/forkmain.c"
   mkdir -p "$SUT/include"; cp -r lib/runtime/include/* "$SUT/include/"; cp -r lib/stdlib/include/* "$SUT/include/" 2>/dev/null || true
   rm -rf "$SUT/obj"
   touch "$SUT/.ok"; set +x
